@@ -32,6 +32,12 @@ func c13(c *q.Ctx) {
 		c.StoreIs(gw, "TxOutput.ToAddr", "p0", 1, "to the address asked for")
 		c.StoreIs(gw, "Transaction.Coinbase", "true", 1, "marked as the coinbase")
 	}
+	// the height everything in the block is generated for (award, timer transaction) is the one right above the
+	// ledger's trunk, read again after a consensus-requested truncation
+	if mn := c.Fn(miner + "(*Miner).mining"); mn != nil {
+		c.ArgIs(mn, "Miner.packBlock", 2, "(1 + p0.ctx.Ledger.meta.TrunkHeight)", 1, "the block is packed for trunk height + 1")
+		c.Then(mn, q.ToCall("Miner.truncateForMiner"), q.ToCall("Ledger.GetMeta"), q.ToCall("Miner.packBlock"), nil, "after a truncation the trunk height is read again before the block is packed")
+	}
 	if pk := c.Fn(miner + "(*Miner).packBlock"); pk != nil {
 		c.ArgIs(pk, "Miner.getAwardTx", 1, "p2", 1, "award computed for the height that is packed")
 		c.ArgIs(pk, "Ledger.FormatMinerBlock", 12, "p2", 1, "the block is formatted at that height")
